@@ -692,6 +692,7 @@ def check_dump(ctx, desc):
         before = obj_state(flw, n)
         d = flw._dict
         obs["dict.keys"] = sorted(d.keys())
+        obs["dict.area_is_none"] = d.get("area", None) is None
         obs["dict.nnodes"] = int(d["nnodes"])
         obs["dict.ds"] = canon_idx(d["idxs_ds"], n)
         obs["dict.seq"] = opt_idx(d["idxs_seq"], n)
@@ -753,9 +754,13 @@ def check_dump(ctx, desc):
             model("the Lean model rejects a state / a dictionary the implementation accepts")
             return fs
         ld, af = obs["loaded"], obs["after"]
-        keys = ["idxs_ds", "idxs_pit", "idxs_seq", "nnodes"] + (["ftype", "latlon", "shape", "transform"] if desc["cls"] == "raster" else [])
+        # the vector class also stores the user-supplied node area (None when none was given; fix afe1ea5 / F12e) - the
+        # Lean dictionary models the network part
+        keys = ["idxs_ds", "idxs_pit", "idxs_seq", "nnodes"] + (["ftype", "latlon", "shape", "transform"] if desc["cls"] == "raster" else ["area"])
         if obs["dict.keys"] != sorted(keys):
             model("_dict has other keys than the model's dictionary", keys=obs["dict.keys"])
+        if desc["cls"] != "raster" and not obs.get("dict.area_is_none", True):
+            spec("_dict holds an area although the object was built without one")
         # spec: round trip = identity on what the object shows
         s_r = rast(a, "spec")
         want = (a["spec.ds"], b["dtype"], opt(a, "spec.seq"), opt(a, "spec.pit"), a["spec.nnodes"][0])
